@@ -126,7 +126,11 @@ func checkOracles(r *Result, sc *scenario) {
 	for i := 0; i < len(sc.nodes); i++ {
 		for j := i + 1; j < len(sc.nodes); j++ {
 			if ok, what := prefixConsistent(sc.nodes[i], sc.nodes[j]); !ok {
-				r.violateFor("C01", what, "fork", sc.replayPayload(nil))
+				if sc.nodes[i].batched || sc.nodes[j].batched {
+					r.violateFor("C03", what, "batched-passes-fame", sc.replayPayload(nil))
+				} else {
+					r.violateFor("C01", what, "fork", sc.replayPayload(nil))
+				}
 			}
 		}
 	}
@@ -155,8 +159,16 @@ func checkOracles(r *Result, sc *scenario) {
 			if !ok1 || !ok2 {
 				continue
 			}
-			if a.round != b.round || a.lamport != b.lamport || a.wit != b.wit || (a.rr != "-" && b.rr != "-" && a.rr != b.rr) {
-				r.violateFor("C03", fmt.Sprintf("event %s: node 0 has (round,lamport,rr,witness)=%v, node %d has %v", g.name, a, nd.id, b), "value-differs", sc.replayPayload(nil))
+			if a.round != b.round || a.lamport != b.lamport || a.wit != b.wit {
+				r.violateFor("C03", fmt.Sprintf("event %s: node 0 has (round,lamport,rr,witness)=%v, node %d (batched=%v) has %v", g.name, a, nd.id, nd.batched, b), "value-differs", sc.replayPayload(nil))
+				break
+			}
+			if a.rr != "-" && b.rr != "-" && a.rr != b.rr {
+				key := "rr-differs"
+				if nd.batched {
+					key = "batched-passes-fame"
+				}
+				r.violateFor("C03", fmt.Sprintf("event %s: node 0 has (round,lamport,rr,witness)=%v, node %d (batched=%v) has %v", g.name, a, nd.id, nd.batched, b), key, sc.replayPayload(nil))
 				break
 			}
 		}
@@ -171,7 +183,11 @@ func checkOracles(r *Result, sc *scenario) {
 			sort.Strings(fa)
 			sort.Strings(fb)
 			if strings.Join(fa, ",") != strings.Join(fb, ",") {
-				r.violateFor("C03", fmt.Sprintf("round %d decided with different famous witnesses on node 0 and node %d", rd, nd.id), "fame-differs", sc.replayPayload(nil))
+				key := "fame-differs"
+				if nd.batched {
+					key = "batched-passes-fame"
+				}
+				r.violateFor("C03", fmt.Sprintf("round %d decided with different famous witnesses on node 0 and node %d (batched=%v)", rd, nd.id, nd.batched), key, sc.replayPayload(nil))
 			}
 		}
 	}
